@@ -30,7 +30,10 @@ Definition writer_calls : list string :=
 Definition reader_calls : list string :=
   ["db.index.get"; "db.datalog.readKeyValue"; "db.datalog.readKey"; "db.index.count";
    "it.fetchItems"; "db.datalog.segmentsBySequenceID"; "db.pickForCompaction";
-   "it.db.index.newBucketIterator"; "it.db.datalog.readKeyValue"].
+   "it.db.index.newBucketIterator"; "it.db.datalog.readKeyValue";
+   (* the bucket a hash belongs to depends on level / split pointer / number of buckets, which every
+      split changes: computed under the lock or not at all *)
+   "db.index.bucketIndex"; "db.index.newBucketIterator"].
 Definition guarded_fields : list string :=
   ["it.db.index.numBuckets"; "sourceSeg.meta"; "seg.meta"; "seg.size"].
 
